@@ -67,6 +67,11 @@ CHECKS = {
    "Trusted: the harness' BAM encoder. Aux type H is a recorded known finding (region excluded and counted, pinned replay reported).",
    "property-based testing (rapid): round trip + differential against an independent specification encoder",
    "DESIGN.md 3/C05"),
+ "C06": ("exploration",
+   "Generated-input search: rapid valid records (all aux types incl. boundary integers, +-Inf, empty and non-empty Z/H/B; '*' and '=' fields; clips and gaps in the CIGAR) are formatted with MarshalSAM (decimal and hexadecimal flags), compared with an independent SAM formatter (float tokens by value), parsed back with UnmarshalSAM against the same header (identical line, equal field values), written to BAM and read back (same line), and fed to sam.Reader as LF/CRLF text with or without final newline and header lines (one record per line).",
+   "Trusted: the harness' SAM formatter. NaN and the one-base-quality-9 spelling ambiguity of SAM are outside the domain.",
+   "property-based testing (rapid): round trip + differential against an independent formatter + SAM/BAM metamorphic agreement",
+   "DESIGN.md 3/C06"),
 }
 
 NOT_YET = {}
